@@ -864,10 +864,15 @@ func c10ClientCredentialsScenario(r *simcore.Run) {
 	cacheKind := simcore.Pick(s, cacheKinds, "cache-kind")
 	ttls := drawTTLPair(s, "cache-ttl")
 	ttl := ttls.effective()
-	var expiresIn int // 0 = absent
-	switch s.Draw(4, "expires-in-class") {
+	var expiresIn int
+	hasExp := true // the answer of the token endpoint carries expires_in (possibly zero or negative: already expired)
+	switch s.Draw(6, "expires-in-class") {
 	case 0:
+		hasExp = false
+	case 4:
 		expiresIn = 0
+	case 5:
+		expiresIn = -1 - s.Draw(60, "expired-since")
 	case 1:
 		expiresIn = 2 + s.Draw(20, "expires-near")
 	case 2:
@@ -889,7 +894,7 @@ mechanisms:
         client_secret: secret
 %s`, ttls.proto.yaml("        "))
 	rules := fmt.Sprintf(c10Rules, "    - authenticator: anon\n    - finalizer: cc"+ttls.stepConfig("cache_ttl"))
-	r.Logf("scenario=%s cache=%s cache_ttl=%s expires_in=%d", kind, cacheKind, ttls, expiresIn)
+	r.Logf("scenario=%s cache=%s cache_ttl=%s expires_in=%d (present=%v)", kind, cacheKind, ttls, expiresIn, hasExp)
 	e, err := newEnv(r, cacheKind, mech, rules)
 	if err != nil {
 		r.Fail("infra", "build", "%v", err)
@@ -904,7 +909,7 @@ mechanisms:
 		tok := fmt.Sprintf("at-%d", n)
 		tokens[tok] = issued{at: time.Since(e.epoch)}
 		resp := map[string]any{"access_token": tok, "token_type": "Bearer"}
-		if expiresIn != 0 {
+		if hasExp {
 			resp["expires_in"] = expiresIn
 		}
 		w.Header().Set("Content-Type", "application/json")
@@ -913,7 +918,7 @@ mechanisms:
 	defer simnetInstall(e)()
 	setFaultPlan(e, s, []int{0, 0, 15, 40}[s.Draw(4, "fault-rate")], "sts")
 	bounds := []int{1}
-	if expiresIn != 0 {
+	if hasExp && expiresIn > 5 {
 		bounds = append(bounds, expiresIn, expiresIn-5)
 	}
 	if ttl.set && ttl.d > 0 {
@@ -939,10 +944,10 @@ mechanisms:
 			r.Count("accepted-from-cache", 1)
 			t := res.at
 			age := t - is.at
-			if expiresIn != 0 && age >= secs(expiresIn) {
+			if hasExp && age >= secs(expiresIn) {
 				r.Fail("expired-token-handed-out", kind, "request at %s received token %s issued at %s with expires_in=%ds (cache_ttl=%s, cache=%s)", t, tok, is.at, expiresIn, ttl, cacheKind)
 			}
-			if expiresIn != 0 && age > secs(expiresIn)-secs(8) {
+			if hasExp && age > secs(expiresIn)-secs(8) {
 				boundaryHit = true
 			}
 			if ttl.set {
